@@ -149,10 +149,12 @@ def fieldGetType (s : VState) (attr : Option Nat) (site : String) : Except Crash
         | "string" | "char[]" => pure "string"
         | _ => pure (getBasicType t)
 
-def tyAttr (ty : Ty) : V Nat :=
+def tyAttr (ty : Ty) (name : String) : V Nat :=
   match ty with
   | .basic t => newAttr (.basic t.text)
-  | .fixed kw n _ =>
+  | .fixed kw n _ => do
+    if natOfDigits n.text > 2 ^ 63 - 1 then
+      addDiag kw.line ("Length of fixed string " ++ name ++ " is out of range: " ++ n.text)
     if kw.kind = .zcharLb then do
       let p ← newPad { ch := "'\x00'", left := false }
       newAttr (.fixed (atoi n.text) (some p))
@@ -263,7 +265,7 @@ partial def visitFieldDef (fd : FieldDef) : V MField :=
     let a ← newAttr (.checksum typ d.attr.from_.text)
     pure { name, attr := some a, doc := docOf d.doc, line := fd.start.line }
   | .metaF rep d => do
-    let a ← tyAttr d.ty
+    let a ← tyAttr d.ty d.name.text
     let doc := match d.doc with | some t => String.ofList ((t.text.toList.drop 1).dropLast) | none => ""
     pure { name := d.name.text, attr := some a, rep := rep.isSome, doc, line := d.ty.start.line }
   | .match_ d _ => do
@@ -477,11 +479,13 @@ def visitCst (c : Cst) : V Unit := do
       for e in m.entries do
         match e with
         | .decl d =>
-          let a ← tyAttr d.ty
+          let a ← tyAttr d.ty d.name.text
           addMeta { name := d.name.text, attr := some a, desc := docOf d.doc, line := d.ty.start.line }
         | .ref r =>
           let s ← get
           let attr := (findMeta s r.typ.text).bind (·.attr)
+          if (findMeta s r.typ.text).isNone then
+            addDiag r.typ.line ("Unknown MetaData type " ++ r.typ.text ++ " for " ++ r.name.text)
           addMeta { name := r.name.text, attr, desc := docOf r.doc, line := r.typ.line }
     | _ => pure ()
   -- options
